@@ -89,6 +89,11 @@ func VerifC09Server() {
 		verifapi.Unreachable("c09.server-request")
 	}
 	codec := &verifWSCodec{script: []*jsonrpc2.Message{msg}}
+	if verifapi.Bool("stray-reply") {
+		// the host also sends a reply nobody is waiting for (a late answer to a whitelist call that
+		// timed out, or an unknown id): the session must still end, and be cleaned up, when it closes
+		codec.script = append(codec.script, &jsonrpc2.Message{ID: []byte("4242"), Version: jsonrpc2.Version, Response: &jsonrpc2.Response{Result: []byte("null")}})
+	}
 	if verifapi.Bool("ends-with-error") {
 		codec.endErr = errors.New("websocket: close 1000 (normal)")
 	}
